@@ -54,8 +54,45 @@ def budget(tier):
     return 5000 if tier == "quick" else 100000
 
 
+@st.composite
+def st_uploaded(draw, tier):
+    """The same kind of program, but its leaves live in an iteration engine and are transferred into the SQL engine
+    first; the tree is then evaluated through Processor.process (which re-applies the operations it finds)."""
+    universe, leaves, prog = draw(st_program(dataclasses_replace(cfg(tier, True), markers=(), binary=("chain",), max_leaves=2)))
+    leaves = tuple(l[:3] + (1,) + l[4:6] + ("plain",) for l in leaves)
+
+    def lift(n):
+        if n[0] == "leaf":
+            return ("xfer", n, 0)
+        if n[0] in ("chain", "join"):
+            return (n[0], lift(n[1]), lift(n[2])) + tuple(n[3:])
+        return (n[0], lift(n[1])) + tuple(n[2:])
+
+    memo = {}
+
+    def lift_shared(n):
+        if id(n) not in memo:
+            if n[0] == "leaf":
+                memo[id(n)] = ("xfer", n, 0)
+            elif n[0] in ("chain", "join"):
+                memo[id(n)] = (n[0], lift_shared(n[1]), lift_shared(n[2])) + tuple(n[3:])
+            else:
+                memo[id(n)] = (n[0], lift_shared(n[1])) + tuple(n[2:])
+        return memo[id(n)]
+
+    return ("uploaded", (universe, leaves, lift_shared(prog)))
+
+
+def dataclasses_replace(c, **kw):
+    import dataclasses
+
+    return dataclasses.replace(c, **kw)
+
+
 def strategy(tier):
-    return st.one_of(st_program(cfg(tier, True)), st_program(cfg(tier, True)), st_program(cfg(tier, False)))
+    return st.one_of(
+        st_program(cfg(tier, True)), st_program(cfg(tier, True)), st_program(cfg(tier, False)), st_uploaded(tier), st_uploaded(tier)
+    )
 
 
 def buried_sort(p):
@@ -81,7 +118,45 @@ def buried_sort(p):
         return False
 
 
+def run_uploaded(case, stats):
+    """Programs whose leaves are uploaded from an iteration engine: evaluated through Processor.process."""
+    from lsst.daf.relation import ColumnError, EngineError
+
+    from vf.core.proc import execute_processed, make_processor
+    from vf.core.prog import compare, ev_multi
+
+    universe, leaves, prog = case[1]
+    truth = ev_multi(prog, leaves)
+    env = Env(leaves)
+    try:
+        rels = {}
+        try:
+            build_all(prog, env, rels)
+        except BuildError as b:
+            if is_order_loss(b.exc) or isinstance(b.exc, (ColumnError, EngineError)):
+                stats.c["uploaded:build-refused"] += 1
+                return
+            raise Violation("build-raised", f"{fmt(b.node, leaves)}: {type(b.exc).__name__}: {b.exc}", exc=b.exc)
+        root = rels[id(prog)]
+        try:
+            got = execute_processed(env, make_processor(env).process(root))
+        except Exception:
+            stats.c["uploaded:not-executable"] += 1  # C07 / C08 territory
+            return
+        bad = compare(truth, got)
+        if bad:
+            raise Violation("rows-differ", f"[uploaded leaves, via Processor] {bad}; program {fmt(prog, leaves)}; tree {root}")
+        stats.c["uploaded:compared"] += 1
+        if truth.ordered and len(truth.rows) >= 2:
+            stats.c["g2:ordered-list-compared"] += 1
+            stats.mark_nontrivial(codec.digest(case), lambda: describe(case), cls="uploaded/ordered")
+    finally:
+        env.close()
+
+
 def run_case(case, stats):
+    if case[0] == "uploaded":
+        return run_uploaded(case, stats)
     universe, leaves, prog = case
     env = Env(leaves)
     try:
@@ -137,6 +212,8 @@ def run_case(case, stats):
 
 
 def describe(case):
+    if case[0] == "uploaded":
+        return describe_case(*case[1], leaves_uploaded_through_processor=True)
     return describe_case(*case)
 
 
